@@ -84,7 +84,9 @@ func (g *Gen) maxDepth() int {
 func (g *Gen) Fill(t *rapid.T, v reflect.Value) { g.fill(t, v, 0, false) }
 
 // FillAt is Fill for hooks that recurse (depth as passed to the hook; nonNil forces a non-nil pointer / container).
-func (g *Gen) FillAt(t *rapid.T, v reflect.Value, depth int, nonNil bool) { g.fill(t, v, depth, nonNil) }
+func (g *Gen) FillAt(t *rapid.T, v reflect.Value, depth int, nonNil bool) {
+	g.fill(t, v, depth, nonNil)
+}
 
 var shortAlphabet = []rune("abcdefghijklmnopqrstuvwxyz0123456789_-:/.")
 
